@@ -595,6 +595,10 @@ def run(ctx):
         ctx.broken.append({"kind": "ast-fact", "what": "channel.py " + o,
                            "detail": "the channel's OS pipe is touched outside the OrPipe halves wired by fileno() and "
                                      "set_forever() in _handle_eof/_set_closed: the model does not describe that"})
+    for o in read_loop_facts(bpmod):
+        ctx.broken.append({"kind": "ast-fact", "what": "buffered_pipe.py " + o,
+                           "detail": "bytes leave the buffer (or read returns) without passing the tail that clears the "
+                                     "event of a drained open buffer: the model's drain does not describe that"})
     rng = ctx.rng
     world_box = [World()]
     rigs = []
@@ -678,7 +682,7 @@ def run(ctx):
             base = [j for j in jobs if j[0] in (["fileno"], ["fileno", "feed2"], ["fileno", "feed1"],
                                                 ["combineon", "fileno", "combineoff"])]
             rest = [j for j in jobs if j not in base]
-            jobs = base + rng.sample(rest, min(len(rest), 450))
+            jobs = base + rng.sample(rest, min(len(rest), 400))
         cap = 400 if ctx.thorough else 40
         n_complete = 0
         budget = 600 if ctx.thorough else 42
@@ -750,6 +754,7 @@ def run(ctx):
                         break
                 rig.impl = []
                 rig.conclude([seq_world])
+        deadline_scenarios(ctx, seq_world, table)
         # peer messages that must not change readability (requests, window adjusts, request replies), from every kind
         # of quiescent state after fileno(); each is followed by the oracle
         for setup in (["fileno"], ["fileno", "feed1"], ["fileno", "feed1", "drain1"], ["fileno", "feed2", "drain2"],
@@ -880,6 +885,85 @@ def pipe_writers(chanmod):
             else:
                 bad.append("%s: self._pipe used as a value (%s)" % (where, type(par).__name__))
     return bad
+
+
+def read_loop_facts(bpmod):
+    """AST fact about BufferedPipe.read: bytes leave the buffer only in the common tail, where a drained, open buffer
+    clears its event.  Offenders: a `return` or a `del self._buffer[...]` lexically inside the wait loop."""
+    import ast
+
+    tree = ast.parse(open(bpmod.__file__).read())
+    cls = next(n for n in tree.body if isinstance(n, ast.ClassDef) and n.name == "BufferedPipe")
+    fn = next((f for f in cls.body if isinstance(f, ast.FunctionDef) and f.name == "read"), None)
+    if fn is None:
+        return ["BufferedPipe.read not found"]
+    bad = []
+    for loop in [n for n in ast.walk(fn) if isinstance(n, (ast.While, ast.For))]:
+        for node in ast.walk(loop):
+            if isinstance(node, ast.Return):
+                bad.append("read line %d: return inside the wait loop" % node.lineno)
+            elif isinstance(node, ast.Delete) and "_buffer" in ast.unparse(node):
+                bad.append("read line %d: bytes removed inside the wait loop" % node.lineno)
+    return bad
+
+
+def deadline_scenarios(ctx, seq_world, table):
+    """a reader parked in a timed read on an empty buffer (after fileno()), the feed arriving before, at, and after
+    its deadline (fake clock in paramiko.buffered_pipe), the chunk fitting / not fitting into nbytes; then the readiness
+    oracle at quiescence.  Oracle only (the models abstract time away)."""
+    import time as _time
+
+    bpmod = seq_world.bpmod
+    sched = seq_world.sched
+    real_time = bpmod.time
+    bpmod.time = lib_coop.FakeTime(_time)
+    try:
+        for i in (0, 1):
+            for elapsed in (1.0, 5.0, 9.0):
+                for nbytes, chunk in ((10, b"xy"), (1, b"xy"), (2, b"xy")):
+                    for then_eof in (False, True):
+                        rig = Rig(seq_world, table)
+                        rig.op_fn("fileno")()
+                        b = rig.bufs[i]
+                        t = seq_world.threads[1]
+                        t.clock = 0.0
+                        sched.begin(t, lambda: b.read(nbytes, 5.0))
+                        case = {"buffer": i + 1, "read": [nbytes, 5.0], "feed": chunk.hex(), "wait-ends-after": elapsed,
+                                "eof-instead-of-feed": then_eof}
+                        ctx.case(("deadline", i, elapsed, nbytes, then_eof), True)
+                        ctx.dist("deadline-scenario")
+                        try:
+                            if t.state != "cv":
+                                raise InfraError("C24: timed read on an empty buffer did not wait (state %s)" % t.state)
+                            if then_eof:
+                                rig.op_fn("eof")()
+                            else:
+                                b.feed(chunk)
+                            sched.wake(t, elapsed)
+                            n = 0
+                            while t.state != "idle" and sched.enabled(t):
+                                sched.step(t)
+                                n += 1
+                                if n > 200:
+                                    raise InfraError("C24: reader does not finish")
+                            if t.state != "idle":
+                                ctx.fail("deadline-reader-stuck", case, rig.state_S())
+                            else:
+                                kind, val = t.result
+                                if kind == "exc" and not isinstance(val, bpmod.PipeTimeout):
+                                    from pv.core import exc_site
+                                    ctx.fail("unexpected-exception:" + exc_site(val), case, repr(val))
+                                bad = rig.oracle()
+                                if bad:
+                                    ctx.fail(bad[0] + ":timed-read-at-deadline", case, bad[1])
+                        finally:
+                            if t.state != "idle":
+                                seq_world.close()
+                                raise InfraError("C24: deadline scenario left a thread running")
+                            rig.impl = []
+                            rig.conclude([seq_world])
+    finally:
+        bpmod.time = real_time
 
 
 def inert_message(ch, kind):
